@@ -14,13 +14,15 @@ from .. import procsim as ps
 from .. import simcache as sc
 
 PROP = "C06"
-N = 13
+N = 14
 
 KERNEL = r'''#ifdef __OKL__
+#include <okinc.h>
 #define OKLV 1
 #define KSIG @kernel void k(const int n, int *out)
 #define LOOPS for (int b = 0; b < 1; ++b; @outer) for (int t = 0; t < 1; ++t; @inner)
 #else
+#define INCP 0
 #define OKLV 2
 #define LOOPS
 #ifdef __cplusplus
@@ -47,6 +49,7 @@ KSIG {
     out[10] = OKLV;
     out[11] = addk(10);
     out[12] = %(src)d + DEF_D;
+    out[13] = INCP;
   }
 }
 '''
@@ -71,6 +74,8 @@ SPACE = {
     "compiler_env_script": ["export SIM_ENV_D=1", "export SIM_ENV_D=2"],
     "compiler_language": ["cpp", "c"],
     "okl": [True, False],
+    # okl/include_paths: two directories that each hold a different okinc.h (an okl setting; only an input with OKL on)
+    "okl_inc": ["incA", "incB"],
     # how `defines` and `compiler_flags` reach the build: 0 top-level build property; 1 under modes/<mode> of the build
     # properties with a decoy (the other value) at top level; 2 device-level kernel/<prop>; 3 top-level with a decoy under
     # another mode's section (which must never take effect)
@@ -89,15 +94,20 @@ def cfg_key(cfg):
     return ",".join("%s=%d" % (k, cfg[k]) for k in KEYS)
 
 
-def effective_key(cfg):
+def effective_key(cfg, env=None):
     """Configurations are distinct build inputs iff their property values differ; the one
     exception: compiler_language is only an input when OKL is off (with OKL on the language
     is always C++ — serial::device::buildKernel)."""
     c = dict(cfg)
     if SPACE["okl"][c["okl"]]:
         c["compiler_language"] = 0
+    else:
+        c["okl_inc"] = 0
     # the channel through which a value arrives is not a build input, the value is
     c["ch_defines"] = c["ch_flags"] = 0
+    # a linker-flags property is overridden by OCCA_LDFLAGS when the (fixed) environment sets it
+    if env and "OCCA_LDFLAGS" in env:
+        c["compiler_linker_flags"] = 0
     return cfg_key(c)
 
 
@@ -112,7 +122,7 @@ def job_spec(cfg, sb_proj, mode="Serial"):
         "compiler_shared_flags": v["compiler_shared_flags"],
         "compiler_env_script": v["compiler_env_script"],
         "compiler_language": v["compiler_language"],
-        "okl": {"enabled": v["okl"]},
+        "okl": {"enabled": v["okl"], "include_paths": [os.path.join(sb_proj, v["okl_inc"])]},
     }
     dev = {}
     other = "OpenMP" if mode == "Serial" else "Serial"
@@ -136,9 +146,13 @@ def job_spec(cfg, sb_proj, mode="Serial"):
     return job, dev
 
 
-def vspec(mode, cfg, sb):
+ENVS = [{}, {}, {}, {"OCCA_CXXFLAGS": FLAG_POOL[1]}, {"CXXFLAGS": FLAG_POOL[2]}, {"OCCA_LDFLAGS": FLAG_POOL[1]},
+        {"OCCA_CXXFLAGS": "-O2", "CXXFLAGS": "-O1"}]
+
+
+def vspec(mode, cfg, sb, env=None):
     job, dev = job_spec(cfg, sb.proj, mode)
-    return ps.VProcSpec({"mode": mode, "device": dev, "jobs": [job]})
+    return ps.VProcSpec({"mode": mode, "device": dev, "jobs": [job]}, env=dict(env or {}))
 
 
 def gen(seed, index):
@@ -170,20 +184,20 @@ def gen(seed, index):
     # repeats of earlier configurations
     for _ in range(r.randint(1, 3)):
         hist.insert(r.randint(1, len(hist)), dict(r.choice(hist)))
-    return {"seed": seed, "mode": r.choice(["Serial", "Serial", "OpenMP"]), "history": hist}
+    return {"seed": seed, "mode": r.choice(["Serial", "Serial", "OpenMP"]), "history": hist, "env": r.choice(ENVS)}
 
 
 _ref_cache = {}
 
 
-def reference(mode, cfg, sb, seed):
-    """Isolated run: the configuration built on an empty cache."""
-    key = mode + "|" + cfg_key(cfg)
+def reference(mode, cfg, sb, seed, env=None):
+    """Isolated run: the configuration built on an empty cache (in the scenario's fixed environment)."""
+    key = mode + "|" + cfg_key(cfg) + "|" + json.dumps(env or {}, sort_keys=True)
     if key in _ref_cache:
         return _ref_cache[key]
     sb.reset()
     _write_includes(sb)
-    g = ps.run_group(sb, seed, [vspec(mode, cfg, sb)], strategy=("rtb", 0, 1))
+    g = ps.run_group(sb, seed, [vspec(mode, cfg, sb, env)], strategy=("rtb", 0, 1))
     o = g.outputs[0][0] if g.outputs[0] else {"status": "none"}
     res = {"status": o.get("status"), "out": o.get("out"), "what": o.get("what", ""), "sig": g.vp[0]["sig"]}
     _ref_cache[key] = res
@@ -193,12 +207,15 @@ def reference(mode, cfg, sb, seed):
 def _write_includes(sb):
     sb.write_proj("inc1.h", "#define INC_I 3\n")
     sb.write_proj("inc2.h", "#define INC_I 9\n")
+    sb.write_proj("incA/okinc.h", "#define INCP 1\n")
+    sb.write_proj("incB/okinc.h", "#define INCP 2\n")
 
 
 def execute(scn, sb):
     seed, mode = scn["seed"], scn["mode"]
     hist = scn["history"]
-    refs = [reference(mode, c, sb, seed) for c in hist]
+    env = scn.get("env") or {}
+    refs = [reference(mode, c, sb, seed, env) for c in hist]
     sb.reset()
     _write_includes(sb)
     steps = 0
@@ -208,12 +225,12 @@ def execute(scn, sb):
     logs = []
     builds = []
     for i, cfg in enumerate(hist):
-        g = ps.run_group(sb, seed, [vspec(mode, cfg, sb)], strategy=("rtb", 0, 1), clock0=steps * 10 ** 6)
+        g = ps.run_group(sb, seed, [vspec(mode, cfg, sb, env)], strategy=("rtb", 0, 1), clock0=steps * 10 ** 6)
         steps += g.gsteps
         logs += g.log
         o = g.outputs[0][0] if g.outputs[0] else {"status": "none"}
         ref = refs[i]
-        ek = effective_key(cfg)
+        ek = effective_key(cfg, env)
         builds.append({"cfg": cfg_key(cfg), "status": o.get("status"), "out": o.get("out"), "compiles": g.vp[0]["compiles"]})
         if ref["status"] != "ok" or ref["sig"]:
             # the configuration does not even build on an empty cache: not a C06 matter, skip it
@@ -245,13 +262,13 @@ def execute(scn, sb):
         else:
             seen[ck] = (o.get("hash"), b, i)
         by_binary.setdefault(b, (ek, i))
-    distinct_cfgs = len(set(effective_key(c) for c in hist))
+    distinct_cfgs = len(set(effective_key(c, env) for c in hist))
     out = {
         "violations": violations,
         "log_hash": ps.log_hash(logs),
         "steps": steps, "sim_ns": steps * 10 ** 6,
         "nontrivial": distinct_cfgs >= 2,
-        "distinct_key": hashlib.sha256((mode + json.dumps([cfg_key(c) for c in hist])).encode()).hexdigest()[:16],
+        "distinct_key": hashlib.sha256((mode + json.dumps([cfg_key(c) for c in hist]) + json.dumps(env, sort_keys=True)).encode()).hexdigest()[:16],
         "probes": {"builds": len(hist), "distinct_configurations_in_history": distinct_cfgs,
                    "repeated_configurations": len(hist) - len(set(cfg_key(c) for c in hist))},
         "states": [hashlib.sha256(json.dumps(sb.tree_state()).encode()).hexdigest()[:12]],
@@ -283,7 +300,8 @@ def signature(scn, out):
             else:
                 vals.append(k)
         props = "+".join(vals)
-    return "%s|%s|differ=%s" % (PROP, v[0], props)
+    envs = ",".join(sorted((scn.get("env") or {}).keys()))
+    return "%s|%s|differ=%s%s" % (PROP, v[0], props, ("|env=" + envs) if envs else "")
 
 
 def minimise(ex, scn, out, cls):
@@ -326,7 +344,8 @@ def main(tier):
                       "never share an entry + repeats hit the cache; non-trivial = history holds >= 2 distinct configurations; "
                       "distinct = hash of the configuration sequence")
     ex.report.assumptions = [
-        "environment held fixed (all OCCA_*, CXX*, CC*, *FLAGS variables unset; clock/entropy simulated)",
+        "environment held fixed within a history; 3 of 7 histories run with all OCCA_*, CXX*, *FLAGS variables unset, the others with one of "
+        "OCCA_CXXFLAGS / CXXFLAGS (fallbacks that never apply because the property is always given) or OCCA_LDFLAGS (overrides the property) set",
         "two configurations are different build inputs iff a listed property has a different value (compiler_language only counts when OKL is off)",
         "configurations that do not build on an empty cache are skipped (not a cache-key matter)",
         "the functions property is populated through OCCA_FUNCTION inside the driver (three fixed lambdas)",
